@@ -79,6 +79,9 @@ def functionEnvKeys : List String :=
 def diffEnvDepths : List Nat :=
   [1000, 1000]
 
+def diffEnvCalls : List (String × String) :=
+  [("starlark.EqualDepth", "1000"), ("diff.DiffDepth", "1000")]
+
 def reasonSkeleton : String :=
   String.join [
     "(block (if _ (== (. v0 oldEnv) (. starlark None)) (block (return false \"target has never been run\" nil nil)) _) (if _ (== (. v0 newData) (. v0 oldData)) (block (return true \"\" nil nil)) _) (if _ (|| (!= v2 nil) v1) (block (return false \"environment changed\" nil nil)) _) (if _ (u! v4) (block (return false \"\" nil (call (. fmt Errorf) \"old environment is not a dict (%v)\" (call (. v3 Type))))) _) (if _ (u! v4) (block (return false \"\" nil (call (. fmt Errorf) \"new environment is not a dict (%v)\" (call (. v5 Type))))) _) (if _ (!= v2 nil) (block (return false \"environment changed\" nil nil)) _) (:= (v7 v4) ((assert v6 (* (. diff MappingDiff))))) (var (v8) (array _ string) ()) (range _ v9 functionEnvKeys (block (if _ (call (. v7 Has) v9) (block (= (v8) ((call append v8 (call string v9))))) _))) (v",
